@@ -253,7 +253,7 @@ func (g *srvGen) tsChoice() uint32 {
 func (g *srvGen) opDgram() {
 	r := g.r
 	var d []byte
-	kind := r.pick([]int{45, 10, 6, 6, 6, 5, 6, 5, 4, 4, 3})
+	kind := r.pick([]int{45, 10, 6, 6, 6, 5, 6, 5, 4, 4, 3, 6})
 	if len(g.devs) == 0 && kind != 8 {
 		kind = 9
 	}
@@ -303,6 +303,21 @@ func (g *srvGen) opDgram() {
 		d = r.Bytes(r.Intn(201))
 	case 9: // unknown id
 		d = MkReport(uint32(50+r.Intn(5)), g.tsChoice(), 5, g.keys[0].Priv).Serialize()
+	case 11: // the same content as an earlier report, signed again with a fresh nonce (a distinct valid report)
+		if len(g.sent) > 0 {
+			old, err := glow.DeserializeReport(g.sent[r.Intn(len(g.sent))][:80])
+			if err == nil {
+				for _, dv := range g.devs {
+					if dv.id == old.ShortID {
+						old.Signature = SignRandom(old.SigningBytes(), dv.key.Priv)
+						d = old.Serialize()
+					}
+				}
+			}
+		}
+		if d == nil {
+			d = mk().Serialize()
+		}
 	default: // multi-bit mutation
 		d = mk().Serialize()
 		for k := 0; k < 3; k++ {
